@@ -52,7 +52,7 @@ func (f *Cond) Call(s *slip.Scope, args slip.List, depth int) (result slip.Objec
 		if result = slip.EvalArg(s, clause, 0, d2); result == nil {
 			continue
 		}
-		for i := 1; i < len(clause); i++ {
+		for i := 1; i < len(clause) && !slip.IsExit(result); i++ {
 			result = slip.EvalArg(s, clause, i, d2)
 		}
 		break
